@@ -38,6 +38,35 @@ def kind_tests(f, variant):
     return out
 
 
+def d_continuation_fresh(chk, F):
+    """A multi-line block ends at a blank line or right before a single-line block; the full parser re-decides this for EVERY line it
+    appends: each test that can leave a line-pulling loop of next_block is computed inside that loop (a peek at the coming token, the
+    line just pulled) — never from a value obtained before the loop, which would describe the first line only."""
+    fs = [g for g in F.funcs.values() if g.key.endswith("::next_block") and "parser::PullParser" in g.key and not g.is_closure()]
+    if len(fs) != 1:
+        chk.fail("anchor-missing", "next_block", "", f"anchor-missing: PullParser::next_block found {len(fs)} times")
+        return
+    f = fs[0]
+    R = "C14.D-continuation-fresh"
+    n = 0
+    for scc in f.sccs():
+        scc = set(scc)
+        if not any(b in scc for b, t in f.calls() if (callee_key(t) or "").endswith("::pull_line")):
+            continue
+        for b in sorted(scc):
+            t = f.blocks[b]["term"]
+            if t["k"] != "switch" or all(x in scc for x in f.succ[b]):
+                continue
+            n += 1
+            e = resolve(f, t["discr"])
+            inside = [x for x in walk(e) if x[0] == "call" and x[3] in scc]
+            chk.expect(bool(inside), R, f"next_block|exit#{n}", f.where(b),
+                       "a test that ends the line-pulling loop of next_block is computed from values obtained before the loop (" + full(e)[:80] + "): it is not "
+                       "re-evaluated for the lines the loop appends, so a block can run past a following `>>` entry / section in the full parse only",
+                       sample=f"{f.where(b)}: exit test evaluated inside the loop ({inside[0][1].rsplit('::', 1)[-1] if inside else ''})")
+    chk.floor(R, "exit tests of line-pulling loops in next_block", n, 2, f"{f.file}:{f.line}")
+
+
 def d_first_content_line(chk, F):
     """Whether a block is a single-line block (`>>` entry, `=` section) is a property of its first NON-EMPTY line: next_block
     skips blank / comment-only lines by pulling again, and the `is_single_line` it then reads must belong to the line pulled last —
@@ -237,7 +266,7 @@ def run(chk: harness.Check):
         "Lineage and must-pass rules on the MIR of CooklangParser::{parse_with_options, parse_metadata_with_options} and of the two block scanners: "
         "same PullParser::new(input, self.extensions); both scanners call parser::metadata::metadata_entry; in next_metadata_block every Some(entry) "
         "reaches BlockParser::event; parse_events receives (input, self.extensions, &self.converter, options) on both paths; the metadata result is the "
-        "`metadata` field of the analysed recipe. This is a weak necessary condition: equality of the selected lines is a run-time property.")
+        "`metadata` field of the analysed recipe; every exit test of a line-pulling loop of next_block is computed inside that loop. This is a weak necessary condition: equality of the selected lines is a run-time property.")
     chk.trusted = ["rustc MIR, resolved callees"]
     chk.analysed = {"facts": th}
     fa = F.funcs.get("cooklang::CooklangParser::parse_with_options")
@@ -313,6 +342,7 @@ def run(chk: harness.Check):
     d_line_start(chk, F, f)
     d_accept(chk, F)
     d_first_content_line(chk, F)
+    d_continuation_fresh(chk, F)
     # the metadata scanner handles front matter like the full one: the queued front matter event is popped first
     nm = [g for g in F.funcs.values() if g.key.endswith("::next_metadata") and not g.is_closure()]
     nx = [g for g in F.funcs.values() if g.key == "cooklang::<parser::PullParser<T> as std::iter::Iterator>::next"]
